@@ -26,6 +26,8 @@ TNext ==
        \* member-by-member reading: the Header values kept across Reset are still each member's own
        \* mechanism events of the Reader (hooks): judged by ReaderMechTrace, not by the contract
        [] e.ev = "RMech" -> UNCHANGED <<rvars, viol, noted>>
+       \* after the Reader has moved on to another source, the earlier (caller-owned) source is where it was left
+       [] e.ev = "Prev"  -> UNCHANGED rvars /\ Rec(Chk("C05.earlier_source_untouched", e.rest = e.wantRest) \cup Chk("C13.earlier_source_untouched", e.rest = e.wantRest))
        [] e.ev = "Hdrs"  -> UNCHANGED rvars /\ Rec(Chk("C08.member_headers", e.ok))
        [] e.ev \in {"Crash", "Hang"} -> UNCHANGED rvars /\ RecBegin({"C03.nopanic", "C03.terminates"})
 
